@@ -1118,6 +1118,26 @@ func (x *Exec) chanEventNamed(st *State, kind, name string, v *Value, okT string
 			if gv, ok := st.ghost["ev_val_"+name]; ok && gv.Sort == x.Sorts.SortOf(v.Typ) {
 				x.setGhost(st, "ev_val_"+name, v.T, c)
 			}
+			// prophecy variable ev_src_X: the concatenation of everything the channel will ever deliver.
+			// A received chunk is the next piece of it; a closed channel means all of it was received.
+			if sv, ok := st.ghost["ev_src_"+name]; ok && isStringType(v.Typ) {
+				if bv, ok := st.ghost["ev_bytes_"+name]; ok {
+					src, before := x.term(sv), x.term(bv)
+					piece := fmt.Sprintf("(and (<= (+ %s (slen %s)) (slen %s)) (forall ((i Int)) (! (=> (and (<= 0 i) (< i (slen %s))) (= (sat %s i) (sat %s (+ %s i)))) :pattern ((sat %s i)))))",
+						before, v.T, src, v.T, v.T, src, before, v.T)
+					if c != "" {
+						piece = implies(c, piece)
+					}
+					st.assume(piece)
+					if okT != "" {
+						closed := implies(not(okT), eq(before, app("slen", src)))
+						if cond != "" {
+							closed = implies(cond, closed)
+						}
+						st.assume(closed)
+					}
+				}
+			}
 			if gv, ok := st.ghost["ev_bytes_"+name]; ok && isStringType(v.Typ) {
 				nt := app("+", x.term(gv), app("slen", v.T))
 				if c != "" {
